@@ -1203,7 +1203,7 @@ static const char *T_NAME[T__N] = {"eod-ok", "eod-foreign-session", "nothing-the
 struct resp_case {
 	int kind; /* 0 delta, 1 reload after Cache Reset */
 	int n;
-	int sym[4];
+	int sym[8];
 	int term;
 };
 static struct resp_case RC;
@@ -1678,6 +1678,11 @@ static void run_resp_cases(void)
 {
 	long shard = v_argl("shard", 0), nshards = v_argl("nshards", 1);
 	int maxn = (int)v_argl("n", 3);
+
+	if (maxn > 8) {
+		fprintf(stderr, "HARNESS-ABORT --n larger than the symbol array\n");
+		_exit(3);
+	}
 	bool small = v_flag("small-alphabet"); /* announce/withdraw of v4/v6 present/absent only */
 	static const int small_syms[] = {0, 1, 2, 3, 4, 5, 6, 7, 8, 9};
 	/* bulk alphabet: the 12 bulk symbols, announce/withdraw of every universe record, bad flags, a malformed PDU */
